@@ -351,10 +351,7 @@ class SeqTheory:
         raise Unsupported("unpack of structure")
 
     def comprehension(self, interp, st, fr, elt, g, it):
-        h = st.ghost.get("seq_comprehension")
-        if h:
-            return h(interp, st, fr, elt, g, it)
-        raise Unsupported("comprehension over a symbolic sequence (line %s) needs a comprehension contract" % g.iter.lineno)
+        return seq_comprehension(interp, st, fr, elt, g, it)
 
 
 class FragTheory:
@@ -448,3 +445,38 @@ def unfold_small(st, seqth, S, a, upto=3):
     seqth.base_prefix(st, S, a)
     for i in range(upto):
         seqth.unfold_prefix(st, S, z3.IntVal(i), a)
+
+
+# ============================================================================ comprehensions over symbolic sequences
+# [elt(x) for x in S]  is the sequence R = map(elt, S): same length, R_j = elt(S_j) for a generic index j.
+# The element expression is evaluated once at a fresh index j (it must not fork); R is a fresh structure
+# constant defined point-wise at j.  Facts about den(R) then need a lemma (congruence / permutation).
+
+def seq_comprehension(interp, st, fr, elt, g, it):
+    from .interp import Frame
+    th = it.theory
+    S = it.expr
+    n = th.len(interp, st, it)
+    j = st.fresh("j_comp", z3.IntSort())
+    st.assume(z3.And(j >= 0, j < n))
+    inner = Frame(dict(fr.locals), fr.closure, fr.modname, fr.func)
+    item = th.item(interp, st, it, j)
+    forks = st.forks
+    interp.assign_target(st, inner, g.target, item)
+    if g.ifs:
+        raise Unsupported("filtered comprehension over a symbolic sequence")
+    val = interp.eval(st, inner, elt)
+    if st.forks != forks:
+        raise Unsupported("comprehension element forks on the generic index (line %s)" % g.iter.lineno)
+    R = st.fresh("comp_result", Seq)
+    st.assume(z3.And(SLEN(R) == n, DEPTH(R) >= 0))
+    rec = {"R": R, "S": S, "j": j, "value": val, "source": it}
+    st.ghost.setdefault("comprehensions", []).append(rec)
+    define = st.ghost.get("comp_define")
+    if define is None:
+        raise Unsupported("comprehension over a symbolic sequence without a comprehension contract")
+    define(interp, st, rec)
+    r = VSym(R, th if isinstance(th, SeqTheory) else st.ghost["seq_theory"])
+    r.kind = "list"
+    r.from_comp = True
+    return r
